@@ -276,7 +276,7 @@ impl Store {
             || (final(st).log == old(st).log.push(Ev::Commit(insert_ops(frame))).push(Ev::PersistErr)), //# store.insert_frame.errors_propagated
 //@@ prologue
     broadcast use axiom_key_bytes_arr16, axiom_key_bytes_arr0, axiom_key_bytes_vec;
-//@@ before_stmt: .commit(
+//@@ before_stmt?: .commit(
     proof { assert(batch_ops(&batch) =~= insert_ops(frame)); } //# store.insert_frame.three_entries
 //@@ end
 
@@ -340,7 +340,7 @@ impl Store {
         // invariant) or when the storage layer reported an error
         r is Err ==> !no_storage_error(old(st), final(st))
             || (old(st).parts.stream.contains_key(id_bytes(*id)) && !nul_free(topic_bytes(&stored_frame(old(st), *id)))), //# store.remove.errors_propagated
-//@@ before_stmt: .commit(
+//@@ before_stmt?: .commit(
     proof { assert(batch_ops(&batch) =~= remove_ops(*id, &frame)); } //# store.remove.three_tombstones
 //@@ prologue
     broadcast use axiom_key_bytes_arr16, axiom_key_bytes_arr0, axiom_key_bytes_vec;
